@@ -105,7 +105,14 @@ class MachineModel:
         if circuit.num_qudits > self.num_qudits:
             return False
 
-        if any(g not in self.gate_set for g in circuit.gate_set):
+        from bqskit.ir.gates.barrier import BarrierPlaceholder
+        from bqskit.ir.gates.measure import MeasurementPlaceholder
+        from bqskit.ir.gates.reset import Reset
+        placeholders = (BarrierPlaceholder, MeasurementPlaceholder, Reset)
+        if any(
+            g not in self.gate_set and not isinstance(g, placeholders)
+            for g in circuit.gate_set
+        ):
             return False
 
         if placement is None:
